@@ -201,6 +201,15 @@ func (r *runner) run() int {
 			if donePath[pr] {
 				continue
 			}
+			hasViol := false
+			for _, a := range pr.Asserts {
+				if a.Status == "violated" {
+					hasViol = true
+				}
+			}
+			if hasViol {
+				continue // replayed below as a counterexample candidate
+			}
 			donePath[pr] = true
 			out, err := rp.run(fn, pr.CoverModel, "")
 			if err != nil {
@@ -209,6 +218,11 @@ func (r *runner) run() int {
 				continue
 			}
 			ok, why := out.agrees(pr)
+			if !ok && out.failedLabel != "" && pathViolates(pr, out.failedLabel) && kf.match(r.prop, n, out.failedLabel) != nil {
+				// (agentB) the covering path itself ends in a registered known finding, symbolically and
+				// natively alike: both runs agree, the finding is reported by the counterexample replay below
+				ok = true
+			}
 			if ok {
 				hs.TracesValidated++
 			} else {
@@ -307,4 +321,14 @@ func (k *knownFindings) match(prop, harness, label string) *knownFinding {
 		}
 	}
 	return nil
+}
+
+// pathViolates reports whether the symbolic path recorded a violated assertion with this label (agentB).
+func pathViolates(pr *interp.PathResult, label string) bool {
+	for _, a := range pr.Asserts {
+		if a.Label == label && a.Status == "violated" {
+			return true
+		}
+	}
+	return false
 }
